@@ -129,6 +129,14 @@ outer:
 			}
 			s := []byte(t)
 			c.current.Insert(s)
+			// Once the current filter is half loaded the future one has to see
+			// every further record. Start it right here rather than at the next
+			// Maintain call: a burst between two maintenance cycles would
+			// otherwise leave those records out of the filter that replaces the
+			// current one, and the drop decisions would be forgotten early.
+			if c.future == nil && c.current.LoadFactor() > 0.5 {
+				c.future = cuckoo.NewFilter(c.capacity)
+			}
 			// don't add anything to future if it doesn't exist yet
 			if c.future != nil {
 				c.future.Insert(s)
